@@ -422,7 +422,7 @@ def cc_part(ctx, d):
                     vok += 1
                     venv += int(kv["envelope"])
                     vcfgmax = max(vcfgmax, int(kv["configs"]))
-                elif dev is None:
+                elif t[2] == "FAIL" and dev is None:
                     dev = (t[1], line)
             for line in (b / "monitor.txt").read_text().splitlines():
                 t = line.split()
